@@ -21,7 +21,7 @@ MANIFEST = {
              'vs. skipped fields, non-finite sentinels vs. JSON) are listed in known_findings.json.'),
 }
 EXPLANATION = 'Attribute / format-table / write-set inventories that the round trip needs; each violation names the type.field or function.'
-RULES = ['C17-1.formats', 'C17-1.init', 'C17-2.bincode', 'C17-3.skip', 'C17-4.midrun', 'C17-5.nonfinite', 'C17-6.linkidx', 'C17-7.nestedinit', 'C17-8.validators']
+RULES = ['C17-1.formats', 'C17-1.init', 'C17-2.bincode', 'C17-3.skip', 'C17-4.midrun', 'C17-5.nonfinite', 'C17-6.linkidx', 'C17-7.nestedinit', 'C17-8.validators', 'C17-9.truncate']
 ASSUMPTIONS = ['serde_yaml / serde_json / bincode behave as documented']
 
 STEP_ROOTS = ['LocomotiveSimulation::step', 'ConsistSimulation::step', 'SetSpeedTrainSim::step', 'SpeedLimitTrainSim::step',
@@ -33,6 +33,7 @@ def serde_attrs(f):
 
 
 def run(ctx):
+    truncation(ctx)
     # loading runs init() -> validate(): a validator that rejects what its sibling (the borrowed / owned / legacy form of the same
     # data) accepts makes a saved object unreadable — shared with C16-6
     from .common import RuleProxy
@@ -555,3 +556,50 @@ def nested_init(ctx):
         ctx.check(not missing, 'C17-7.nestedinit', '<%s as SerdeAPI>::init' % tname, 'reaches the init of every nested object that has one',
                   'nested objects with their own init that are not initialised: %s' % missing, ctx.where(b))
     ctx.floor('hand-written init functions', n, 10)
+
+
+def truncation(ctx):
+    """C17-9.truncate: a save replaces the file.  Every function of the crate that opens a file for writing through OpenOptions
+    also asks for truncation (File::create truncates by definition); otherwise saving a shorter object over a longer file
+    leaves the old tail behind and the text formats cannot be read back."""
+    import re as _re
+    from sa.cfg import CFG
+    R = 'C17-9.truncate'
+    prog = ctx.prog
+    n = 0
+    creates = 0
+    for b in prog.bodies:
+        if b.kind != 'fn' or b.test:
+            continue
+        cfg = CFG(b)
+        sites = list(cfg.call_sites())
+        names = [(_re.sub(r'::<.*?>', '', t.callee), t) for _, t in sites]
+        creates += sum(1 for nm, t in names if nm.endswith('File::create'))
+        writes = [t for nm, t in names if nm.endswith('OpenOptions::write') and any(a[0] == 'const' and 'true' in a[1] for a in t.args)]
+        if not writes:
+            continue
+        n += 1
+        trunc = [t for nm, t in names if nm.endswith('OpenOptions::truncate') and any(a[0] == 'const' and 'true' in a[1] for a in t.args)]
+        newonly = [t for nm, t in names if nm.endswith('OpenOptions::create_new') and any(a[0] == 'const' and 'true' in a[1] for a in t.args)]
+        ctx.check(bool(trunc) or bool(newonly), R, b.fid, 'the file opened for writing is truncated (or must not exist yet)',
+                  'OpenOptions::write(true) without truncate(true): an existing longer file keeps its old tail', ctx.where(b, writes[0].span))
+    # SerdeAPI::to_file itself
+    tb = prog.by_id.get('SerdeAPI::to_file')
+    if tb is None:
+        ctx.unproved(R, 'SerdeAPI::to_file', 'anchor not found')
+    else:
+        inv = None
+        from .common import inventory
+        inv = inventory(ctx)
+        reach = inv.reachable(['SerdeAPI::to_file'])
+        opens = 0
+        for fid in reach:
+            fb = prog.by_id.get(fid)
+            if fb is None:
+                continue
+            for _, t in CFG(fb).call_sites():
+                nm = _re.sub(r'::<.*?>', '', t.callee)
+                if nm.endswith('File::create') or nm.endswith('OpenOptions::open'):
+                    opens += 1
+        ctx.check(opens >= 1, R, 'SerdeAPI::to_file|opens', 'to_file opens its target through File::create or a truncating OpenOptions chain (checked above)', 'no file-opening call found under to_file', ctx.where(tb))
+    ctx.floor('functions opening files through OpenOptions::write', n, 2)
